@@ -230,6 +230,15 @@ def run_history(case, ctx):
                     except Exception:
                         ctx.hit("history.refused_calls")
                 hist[-1]["refused_calls_before_transform"] = True
+            if rng.rand() < 0.4:
+                # the FIRST transform after the fit is aborted half-way (floating-point errors turned into exceptions by
+                # the caller, monomials of 1e200 overflow); the next ones are ordinary
+                try:
+                    with numpy.errstate(over="raise", invalid="raise"):
+                        m.transform(numpy.full((2, n), 1e200))
+                except Exception:
+                    ctx.hit("history.first_transform_aborted")
+                hist[-1]["first_transform_aborted"] = True
             outs = [m.transform(X), m.transform(X2), m.transform(X)]
             names = list(m.get_feature_names_out())
         except Exception as e:
